@@ -30,3 +30,20 @@ pub mod chrono {
     }
 }
 use chrono::NaiveDate;
+
+// std range membership (no vstd spec): start <= item < end etc., through the types' partial_cmp specs
+pub open spec fn le_spec<A: PartialOrd<B>, B: ?Sized>(a: &A, b: &B) -> bool {
+    a.partial_cmp_spec(b) == Some(core::cmp::Ordering::Less) || a.partial_cmp_spec(b) == Some(core::cmp::Ordering::Equal)
+}
+pub open spec fn lt_spec<A: PartialOrd<B> + ?Sized, B: ?Sized>(a: &A, b: &B) -> bool {
+    a.partial_cmp_spec(b) == Some(core::cmp::Ordering::Less)
+}
+pub assume_specification<Idx: PartialOrd<Idx>, U: ?Sized + PartialOrd<Idx>>[core::ops::RangeFrom::<Idx>::contains::<U>](r: &core::ops::RangeFrom<Idx>, item: &U) -> (b: bool)
+    where Idx: PartialOrd<U>
+    ensures b == le_spec(&r.start, item);
+pub assume_specification<Idx: PartialOrd<Idx>, U: ?Sized + PartialOrd<Idx>>[core::ops::RangeTo::<Idx>::contains::<U>](r: &core::ops::RangeTo<Idx>, item: &U) -> (b: bool)
+    where Idx: PartialOrd<U>
+    ensures b == lt_spec(item, &r.end);
+pub assume_specification<Idx: PartialOrd<Idx>, U: ?Sized + PartialOrd<Idx>>[core::ops::RangeToInclusive::<Idx>::contains::<U>](r: &core::ops::RangeToInclusive<Idx>, item: &U) -> (b: bool)
+    where Idx: PartialOrd<U>
+    ensures b == (item.partial_cmp_spec(&r.end) == Some(core::cmp::Ordering::Less) || item.partial_cmp_spec(&r.end) == Some(core::cmp::Ordering::Equal));
